@@ -2,6 +2,7 @@
 # Dev-time calibration of the reference models against executables present in this image.
 # usage: calib/run.sh <dpkg|pep440|maven|semver> [n] [seed]      (never a dependency of any check)
 set -u
+export LC_ALL=C.UTF-8 LANG=C.UTF-8 JAVA_TOOL_OPTIONS="-Dfile.encoding=UTF-8 -Dsun.jnu.encoding=UTF-8 -Dstdout.encoding=UTF-8"
 cd "$(dirname "$0")/.."
 export GOFLAGS=-mod=mod GOPROXY=off GOTOOLCHAIN=local
 GO=/root/go/pkg/mod/golang.org/toolchain@v0.0.1-go1.24.4.linux-amd64/bin/go
